@@ -34,6 +34,7 @@ type Program struct {
 	modsets   map[*ssa.Function]map[string]bool
 	U         *Universe
 	RepoDir   string
+	closable  map[string]bool // channel roles that some function of the module closes
 	loopCache map[*ssa.Function][]*Loop
 	dtCache   map[string]*Datatype
 	typeTags  map[string]int
@@ -114,6 +115,18 @@ func LoadProgram(repo string) (*Program, error) {
 		}
 	}
 	sort.Slice(P.ModFuncs, func(i, j int) bool { return P.ModFuncs[i].String() < P.ModFuncs[j].String() })
+	P.closable = map[string]bool{}
+	for _, fn := range P.ModFuncs {
+		for _, b := range fn.Blocks {
+			for _, in := range b.Instrs {
+				if c, ok := in.(ssa.CallInstruction); ok {
+					if bi, ok := c.Common().Value.(*ssa.Builtin); ok && bi.Name() == "close" {
+						P.closable[chanRole(c.Common().Args[0])] = true
+					}
+				}
+			}
+		}
+	}
 	P.Spec = &SpecFile{Defs: map[string]*SpecDef{}}
 	for _, p := range modPkgs {
 		if !inModule(p.Types) {
@@ -516,6 +529,47 @@ func (P *Program) callMods(fn *ssa.Function, c *ssa.CallCommon, m map[string]boo
 		}
 		return
 	}
+	if ct := P.FuncType[dynNameOf(fn, c.Value)]; ct != nil && ct.HasMod {
+		for _, k := range P.declaredModKeysIface(ct) {
+			m[k] = true
+		}
+		return
+	}
+	mc, _ := c.Value.(*ssa.MakeClosure)
+	if mc == nil {
+		// a local variable assigned exactly one closure
+		if u, ok := c.Value.(*ssa.UnOp); ok {
+			if cell, ok := u.X.(*ssa.Alloc); ok {
+				var only *ssa.MakeClosure
+				n := 0
+				if refs := cell.Referrers(); refs != nil {
+					for _, r := range *refs {
+						if st, ok := r.(*ssa.Store); ok && st.Addr == ssa.Value(cell) {
+							n++
+							only, _ = st.Val.(*ssa.MakeClosure)
+						}
+					}
+				}
+				if n == 1 {
+					mc = only
+				}
+			}
+		}
+	}
+	if mc != nil {
+		if cf, ok := mc.Fn.(*ssa.Function); ok && cf != fn {
+			if ct := P.Contracts[cf]; ct != nil && ct.HasMod {
+				for _, k := range P.declaredModKeys(cf, ct) {
+					m[k] = true
+				}
+				return
+			}
+			for k := range P.ModSet(cf) {
+				m[k] = true
+			}
+			return
+		}
+	}
 	m[modAll] = true
 }
 
@@ -601,6 +655,31 @@ func (P *Program) modExprKeys(fn *ssa.Function, ct *Contract, e *Expr) []string 
 			return []string{ghClosed}
 		case "recvd":
 			return []string{ghRecvd}
+		case "written":
+			return []string{ghBuf}
+		case "content":
+			return []string{ghRd}
+		case "pkgstate":
+			// every field of every struct type of the named package of the module
+			var out []string
+			if len(e.Args) == 1 && e.Args[0].Kind == "str" {
+				for _, p := range P.Pkgs {
+					if p.Types.Name() != e.Args[0].Lit || !inModule(p.Types) {
+						continue
+					}
+					sc := p.Types.Scope()
+					for _, n := range sc.Names() {
+						if tn, ok := sc.Lookup(n).(*types.TypeName); ok {
+							if st, ok := tn.Type().Underlying().(*types.Struct); ok {
+								for i := 0; i < st.NumFields(); i++ {
+									out = append(out, fieldKey(tn.Type(), i))
+								}
+							}
+						}
+					}
+				}
+			}
+			return out
 		case "spawned":
 			if len(e.Args) == 1 && e.Args[0].Kind == "str" {
 				return []string{ghSpawn + "$" + e.Args[0].Lit}
@@ -647,6 +726,19 @@ func (P *Program) modExprKeys(fn *ssa.Function, ct *Contract, e *Expr) []string 
 		}
 	}
 	return []string{"#BAD:" + e.String()}
+}
+
+// lookupNamedType finds a named type of any loaded (possibly external) package by package name.
+func (P *Program) lookupNamedType(pkgName, name string) types.Type {
+	var found types.Type
+	packages.Visit(P.Pkgs, nil, func(p *packages.Package) {
+		if found == nil && p.Types != nil && p.Types.Name() == pkgName {
+			if o, ok := p.Types.Scope().Lookup(name).(*types.TypeName); ok {
+				found = o.Type()
+			}
+		}
+	})
+	return found
 }
 
 func (P *Program) lookupTypeName(pkgPath, name string) *types.TypeName {
